@@ -1,7 +1,7 @@
 (* C03: lemmas about the table-driven gob codec model (Model/Gob.v) and the proof that the table
    condition (Model/GobCheck.v) implies the round trip. *)
 From AP.Model Require Import Prelude Vocab Bytes Layout Pred Dispatch GobTables Gob GobCheck GobNorm GobWhole.
-From AP.Proofs Require Import NlvP ViewsP.
+From AP.Proofs Require Import NlvP ViewsP GobCodecP.
 
 (* ------------------------------------------------------------------ association lists *)
 Lemma aget_aset_same {A} k (v : A) m : aget k (aset k v m) = Some v.
@@ -318,9 +318,11 @@ Definition cur_ok (cur : option fval) : Prop := cur = None \/ cur = Some (FNlv (
 Definition items_of (v : fval) : list item :=
   match v with FItem i => [i] | FItems (Some l) => l | FEndpoints (Some e) => map snd e | _ => [] end.
 
-(* one level down: the codecs that do not open a nested property map *)
+(* one level down: the codecs that do not open a nested property map, in closed form (wenc0c / rdec0c; the
+   interpreted wenc0 / rdec0 of the model are equal to them under codecs_ok: Proofs/GobCodecP.v) *)
 Section Codec0.
 Variable E : gob_env.
+Hypothesis He : enc_item_ok E = true.       (* gobEncodeItem has its generated statement groups (a nil item writes no bytes) *)
 Variable rec : wire -> outcome item.
 Notation N := (norm_item (ge_layout E) (ge_layout_endpoints E)).
 Notation NV := (norm_fval (ge_layout E) (ge_layout_endpoints E)).
@@ -334,16 +336,16 @@ Proof.
   exists (x' :: r'). rewrite Hx. simpl. rewrite Hr. simpl. split; [reflexivity|now rewrite Hn, Hm].
 Qed.
 
-Lemma wenc0_item i : wenc0 CwItem (Some (pre_fval E (FItem i))) = genc E i.
-Proof. destruct i; reflexivity. Qed.
-Lemma wenc0_item_or_link i : wenc0 CwItemOrLink (Some (pre_fval E (FItem i))) = genc E i.
-Proof. destruct i; reflexivity. Qed.
+Lemma wenc0_item i : wenc0c CwItem (Some (pre_fval E (FItem i))) = genc E i.
+Proof. destruct i; try reflexivity. symmetry. now apply genc_nil. Qed.
+Lemma wenc0_item_or_link i : wenc0c CwItemOrLink (Some (pre_fval E (FItem i))) = genc E i.
+Proof. destruct i; try reflexivity. symmetry. now apply genc_nil. Qed.
 Lemma wenc0_items_as_item c l : c = CwItem \/ c = CwItemOrLink \/ c = CwItems ->
-  wenc0 c (Some (pre_fval E (FItems (Some l)))) = WList (map (genc E) l).
+  wenc0c c (Some (pre_fval E (FItems (Some l)))) = WList (map (genc E) l).
 Proof. intros [-> | [-> | ->]]; reflexivity. Qed.
 Lemma dec_items_list l : dec_items rec (WList l) = omapM rec l.
 Proof. reflexivity. Qed.
-Lemma rdec0_items cur w : rdec0 rec CrItems cur w = obind (dec_items rec w) (fun l => Ok (FItems (Some l))).
+Lemma rdec0_items cur w : rdec0c rec CrItems cur w = obind (dec_items rec w) (fun l => Ok (FItems (Some l))).
 Proof. reflexivity. Qed.
 
 Lemma codec_pair_sound0 t cw cr (ov : option fval) cur :
@@ -354,7 +356,7 @@ Lemma codec_pair_sound0 t cw cr (ov : option fval) cur :
   (cw <> CwIri -> cw <> CwType -> cw <> CwRawBytes -> cur_ok cur) ->
   (t = TItems -> is_item_codec cw = true -> exists l, ov = Some (FItems (Some l))) ->
   (is_item_codec cw = true -> forall s, ov = Some (FStr s) -> s = [] \/ iri_nilish s = false) ->
-  exists v', rdec0 rec cr cur (wenc0 cw (option_map (pre_fval E) ov)) = Ok v' /\
+  exists v', rdec0c rec cr cur (wenc0c cw (option_map (pre_fval E) ov)) = Ok v' /\
              NV v' = match ov with Some v => NV v | None => None end.
 Proof.
   intros Hp Hshape Hrec Hnil Hcur Hitems Hstr.
@@ -362,39 +364,39 @@ Proof.
     (destruct ov as [v|]; [specialize (Hshape v eq_refl); destruct v; try discriminate|]);
     try (specialize (Hcur ltac:(discriminate) ltac:(discriminate) ltac:(discriminate))).
   (* an IRI-typed string written by gobEncodeItem *)
-  all: try (match goal with |- context [wenc0 ?c (option_map _ (Some (FStr ?s)))] =>
+  all: try (match goal with |- context [wenc0c ?c (option_map _ (Some (FStr ?s)))] =>
               match c with CwItem => idtac | CwItemOrLink => idtac end;
               destruct (Hstr eq_refl s eq_refl) as [-> | Hns];
               [cbn; eexists; split; reflexivity
-              |cbn [option_map pre_fval wenc0 rdec0]; rewrite Hns, wbg_wraw; eexists; split; reflexivity] end).
-  all: try (match goal with |- context [wenc0 ?c (option_map _ None)] =>
+              |cbn [option_map pre_fval wenc0c rdec0c]; rewrite Hns, wbg_wraw; eexists; split; reflexivity] end).
+  all: try (match goal with |- context [wenc0c ?c (option_map _ None)] =>
               match c with CwItem => idtac | CwItemOrLink => idtac end;
-              match goal with |- context [rdec0 _ ?r] => match r with CrIri => idtac | CrType => idtac | CrString => idtac end end;
+              match goal with |- context [rdec0c _ ?r] => match r with CrIri => idtac | CrType => idtac | CrString => idtac end end;
               cbn; eexists; split; reflexivity end).
   (* strings written raw *)
-  all: try (match goal with |- context [rdec0 _ ?c] =>
+  all: try (match goal with |- context [rdec0c _ ?c] =>
               match c with CrIri => idtac | CrType => idtac | CrString => idtac end end;
             cbn; try rewrite wbg_wraw; eexists; split; reflexivity).
   (* strings written as gob byte strings *)
-  all: try (match goal with |- context [rdec0 _ ?c] => match c with CrMime => idtac | CrLangRef => idtac end end;
+  all: try (match goal with |- context [rdec0c _ ?c] => match c with CrMime => idtac | CrLangRef => idtac end end;
             destruct Hcur as [-> | ->]; try (destruct s); cbn; eexists; split; reflexivity).
   (* language values *)
-  all: try (match goal with |- context [rdec0 _ ?c] => match c with CrNlvMethod => idtac | CrNlvFn => idtac end end;
+  all: try (match goal with |- context [rdec0c _ ?c] => match c with CrNlvMethod => idtac | CrNlvFn => idtac end end;
             destruct Hcur as [-> | ->]; try (destruct l as [[|x r]|]); cbn; eexists; split; reflexivity).
   (* numbers, booleans, instants *)
-  all: try (match goal with |- context [rdec0 _ ?c] =>
+  all: try (match goal with |- context [rdec0c _ ?c] =>
               match c with CrTime => idtac | CrDuration => idtac | CrInt64 => idtac | CrUint => idtac | CrFloat => idtac | CrBool => idtac end end;
             cbn; eexists; split; reflexivity).
   (* item, item list *)
   - destruct (Hrec _ i eq_refl (or_introl eq_refl)) as [i' [Hi Hn]]. exists (FItem i'). split.
-    + cbn [option_map]. rewrite ?wenc0_item, ?wenc0_item_or_link. unfold rdec0. now rewrite Hi.
+    + cbn [option_map]. rewrite ?wenc0_item, ?wenc0_item_or_link. unfold rdec0c. now rewrite Hi.
     + change (NV (FItem i')) with (match N i' with INil => None | x => Some (FItem x) end). now rewrite Hn.
-  - destruct Hnil as [i' [Hi Hn]]. cbn in Hi. exists (FItem i'). split; [cbn; now rewrite Hi|].
+  - destruct Hnil as [i' [Hi Hn]]. rewrite (genc_nil E He INil eq_refl) in Hi. exists (FItem i'). split; [cbn; now rewrite Hi|].
     change (NV (FItem i')) with (match N i' with INil => None | x => Some (FItem x) end). now rewrite Hn.
   - destruct (Hrec _ i eq_refl (or_introl eq_refl)) as [i' [Hi Hn]]. exists (FItem i'). split.
-    + cbn [option_map]. rewrite ?wenc0_item, ?wenc0_item_or_link. unfold rdec0. now rewrite Hi.
+    + cbn [option_map]. rewrite ?wenc0_item, ?wenc0_item_or_link. unfold rdec0c. now rewrite Hi.
     + change (NV (FItem i')) with (match N i' with INil => None | x => Some (FItem x) end). now rewrite Hn.
-  - destruct Hnil as [i' [Hi Hn]]. cbn in Hi. exists (FItem i'). split; [cbn; now rewrite Hi|].
+  - destruct Hnil as [i' [Hi Hn]]. rewrite (genc_nil E He INil eq_refl) in Hi. exists (FItem i'). split; [cbn; now rewrite Hi|].
     change (NV (FItem i')) with (match N i' with INil => None | x => Some (FItem x) end). now rewrite Hn.
   - destruct (Hitems eq_refl eq_refl) as [l0 Hl0]. injection Hl0 as ->.
     destruct (omapM_rec l0) as [l' [Hl Hm]].
@@ -418,8 +420,8 @@ Proof.
 Qed.
 
 (* whether a decoder of an accepted pair succeeds does not depend on the value it overwrites *)
-Lemma rdec0_indep c cur cur' w v :
-  rdec0 rec c cur w = Ok v -> exists v', rdec0 rec c cur' w = Ok v'.
+Lemma rdec0c_indep c cur cur' w v :
+  rdec0c rec c cur w = Ok v -> exists v', rdec0c rec c cur' w = Ok v'.
 Proof.
   intros H. destruct c; cbn in *; eauto; try discriminate.
   all: try (destruct w; cbn in *; try discriminate; eauto; fail).
